@@ -322,6 +322,13 @@ def gen_params(rng, spec):
         p["absence"] = [rng.choice([0, 1, 2, 3, 4, 5, 6, 9, 30]) for _ in range(k)]
         if rng.random() < 0.5:
             p["absence"] = sorted(set(p["absence"]))
+    # drawn last (keeps every earlier choice of a (seed, index) case unchanged): in one case out of seven the
+    # project object is NOT fresh — it has already been simulated (forward or backward, other parameters)
+    # before the run that is observed
+    if rng.random() < 0.15:
+        p["warmup"] = dict(rule=rng.randrange(9), autoFlag=rng.random() < 0.3, maxTime=rng.choice([2, 5, 40]),
+                           absence=sorted(set(rng.choice([0, 1, 2, 4]) for _ in range(rng.randint(0, 2)))),
+                           backward=rng.random() < 0.3)
     return p
 
 
